@@ -217,7 +217,7 @@ func VerifHarness_C02_x509_resumed() {
 
 // C07 — the server's handling of the client's certificates for the six policies, ECC and ECDHE suites.
 //
-//verif:harness props=C07,C09 paths=200000 reach=accepted,rejected
+//verif:harness props=C07,C09,C01 paths=200000 reach=accepted,rejected
 func VerifHarness_C07_certs() {
 	n := verifSplitInt("ncerts", 0, 3)
 	policy := ClientAuthType(verifSplitInt("clientAuth", 0, 5))
@@ -238,6 +238,7 @@ func VerifHarness_C07_certs() {
 	verifReach("accepted")
 	required := policy == RequireAnyClientCert || policy == RequireAndVerifyClientCert || policy == RequireAndVerifyAnyKeyUsageClientCert
 	verifAssert("C07.certs.requiredPresent", !required || n > 0)
+	verifAssert("C01.compat.requiredClientCertEnforced", !required || n > 0)
 	verifAssert("C07.certs.ecdheNeedsTwo", !ecdhe || n >= 2)
 	verifAssert("C07.certs.peerCertificates", len(c.peerCertificates) == n)
 	mustVerify := policy >= VerifyClientCertIfGiven && n > 0
